@@ -3,10 +3,12 @@
 # and run every quick check against it (VERIF_REPO); all must exit 0. The worktree is removed afterwards.
 id=$1; base=${2:-HEAD}
 wt=/tmp/wt-eval-$id
+cp -a $ev/. /verif/evidence/; rm -rf $ev
 git -C /repo worktree remove --force $wt 2>/dev/null
 git -C /repo worktree add -q --detach $wt $base || exit 2
 cd $wt && git apply /verif/seeded/benign-$id/patch.diff || { echo "patch does not apply"; exit 2; }
 cd /verif
+ev=$(mktemp -d /dev/shm/evidence-keep-XXXX); cp -a /verif/evidence/. $ev/
 for p in ${PROPS:-C01 C02 C05 C06 C07 C08 C15 C13 C17 C11 C09 C10 C03 C04 C14 C12}; do
   out=$(VERIF_REPO=$wt bin/check $p quick 2>&1); rc=$?
   case $rc in
@@ -15,4 +17,5 @@ for p in ${PROPS:-C01 C02 C05 C06 C07 C08 C15 C13 C17 C11 C09 C10 C03 C04 C14 C1
     *) echo "$p BROKEN($rc) $(echo "$out" | tail -3 | tr '\n' ' ' | cut -c1-400)";;
   esac
 done
+cp -a $ev/. /verif/evidence/; rm -rf $ev
 git -C /repo worktree remove --force $wt
